@@ -116,6 +116,14 @@ func (f *FlagSet) ParseFlags(args, environ, prefixes []string, p *properties.Pro
 		f.set[fl.Name] = true
 	})
 
+	// A value which cannot be parsed is an error on the command line. It is
+	// one as well under the names which are fabio's own, the prefixed
+	// environment variables and the properties file: ignoring it leaves the
+	// default in force, for a timeout given without a unit that is no limit
+	// at all. A plain environment variable (VERSION, INSECURE, ...) may
+	// belong to something else and is skipped as before.
+	var invalid error
+
 	// lookup the rest via environ and properties
 	f.VisitAll(func(fl *flag.Flag) {
 		// skip if already set
@@ -128,7 +136,11 @@ func (f *FlagSet) ParseFlags(args, environ, prefixes []string, p *properties.Pro
 			name := strings.ToUpper(pfx + strings.Replace(fl.Name, ".", "_", -1))
 			if val, ok := env[name]; ok {
 				f.set[fl.Name] = true
-				f.Set(fl.Name, val)
+				// FABIO_VERSION is a name container images like to use for the
+				// version they ship, not for the -version switch
+				if err := f.Set(fl.Name, val); err != nil && pfx != "" && fl.Name != "version" && invalid == nil {
+					invalid = fmt.Errorf("invalid value %q for %s: %v", val, name, err)
+				}
 				return
 			}
 		}
@@ -139,9 +151,11 @@ func (f *FlagSet) ParseFlags(args, environ, prefixes []string, p *properties.Pro
 		}
 		if val, ok := p.Get(fl.Name); ok {
 			f.set[fl.Name] = true
-			f.Set(fl.Name, val)
+			if err := f.Set(fl.Name, val); err != nil && invalid == nil {
+				invalid = fmt.Errorf("invalid value %q for %s: %v", val, fl.Name, err)
+			}
 			return
 		}
 	})
-	return nil
+	return invalid
 }
